@@ -25,6 +25,8 @@ def run(ctx):
 
 def search(ctx):
     comp_policy.search(ctx)
+    from harness import comp_executor
+    comp_executor.search(ctx, "C09")
 
 
 def replay(ctx, rec):
